@@ -375,7 +375,7 @@ def explore(ctx: Ctx, deep: bool, search: bool = False):
         ps.fixed_scheds = c.get("schedules", [])
         sets.append(ps)
     fams = ["register", "regdt", "put", "assoc", "chain", "removal", "mix"]
-    nsets = (70 if deep else 21)
+    nsets = (49 if deep else 21)
     for i in range(nsets):
         fam = fams[i % len(fams)]
         setup, progs = gen_family(r, fam)
@@ -413,7 +413,7 @@ def explore(ctx: Ctx, deep: bool, search: bool = False):
                 first[si] = x
     # ---- round 2: more schedules, derived from the executed step sequence of the default schedule
     jobs, meta = [], []
-    cap = 60 if deep else 9
+    cap = 40 if deep else 9
     for si, ps in enumerate(sets):
         x = first.get(si)
         if not x or x.get("hang"):
